@@ -14,6 +14,10 @@ pub fn run(ctx: &Ctx, rep: &mut Report, replay: Option<&serde_json::Value>) {
     ctx.shrink_iters.store(150, std::sync::atomic::Ordering::Relaxed);
     if let Some(v) = replay {
         let t: Tagged<Scenario> = serde_json::from_value(v.clone()).expect("replay");
+        if t.sub == "rrdp" {
+            run_case(ctx, rep, &t.sub, &t.case, |sc, i| crate::c01::rrdp_single_prop("C02/rrdp", sc, i, false, true));
+            return;
+        }
         run_case(ctx, rep, &t.sub, &t.case, |sc, i| judge_scenario("C02", sc, i, false, true));
         return;
     }
@@ -22,4 +26,5 @@ pub fn run(ctx: &Ctx, rep: &mut Report, replay: Option<&serde_json::Value>) {
         let p = p.clone();
         move |w| single_run(&w, &p)
     }), |sc, i| judge_scenario("C02", sc, i, false, true));
+    crate::c01::run_rrdp_single(ctx, rep, "C02/rrdp", false, true);
 }
